@@ -150,14 +150,6 @@ def emit() -> str:
                      "self.step_counter > 0`?, operation on the agent looked up by `self.agents[agent_name]`) -/\n"
                      "def updateAgentsProgram : List (Bool × AOp) :=\n  ["
                      + ", ".join(f"({'true' if g else 'false'}, .{o})" for g, o in prog) + "]")
-    # `topological_sort` / `graph_has_cycle` (game/science.py), translated statement by statement (harness/extract/reward_graph.py)
-    from harness.extract.reward_graph import translate_graph_function
-    sc = parse("game/science.py")
-    graph_defs = []
-    for gname in ("topological_sort", "graph_has_cycle"):
-        graph_defs.append(f"/-- `{gname}(graph)` (game/science.py), translated from the source -/\n"
-                          f"def fn_{gname} : Primaite.RewardGraph.Lang.Fn :=\n  " + translate_graph_function(find_function(sc, gname)))
-    calc_defs += graph_defs
     # sticky defaults
     sticky = []
     for cname, _disc, cls in classes:
@@ -202,7 +194,6 @@ def emit() -> str:
     b = lambda x: "true" if x else "false"  # noqa: E731
     nl = "\n\n"
     return f"""import PrimaiteModel.Model.RewardCalcLang
-import PrimaiteModel.Model.RewardGraphLang
 namespace Primaite.Gen.Reward
 open Primaite.Reward
 
